@@ -27,6 +27,9 @@ CLAIMS = {
  "C01": dict(engine="coq-layer-m", tech="Coq proof (soundness, uniqueness, pivot positivity of the tree elimination; dominance of the assembled cable system) + correspondence of every backend with the exact model and an independent physical reference",
    text="Full for the model: Coq theorems over the reals, for EVERY sorted branch tree, every compartment-count vector >= 1, all positive geometric/electrical parameters and every dt > 0: the assembled backward-Euler system (compartments + Kirchhoff branch points) is dominant, the Hines elimination meets no zero pivot, its output satisfies every equation and is the only vector that does; the model's coefficients are proved equal to the conductance formulas traced from the code, and those to the physical per-area axial conductances. The code (level-ordered padded arrays, three backends, CN/fwd schemes, networks, refusals) is tied to the model by sampled agreement in exact rationals plus an exact backward-error predicate against an independently assembled physical system.",
    note=M_NOTE + " The array-level refinement (padding, level order, vmap) is not proved; jax.sparse's spsolve and tridiax.stone are only compared. Reals axioms + classic under the R theorems.", ref="DESIGN.md §5 C01"),
+ "C02": dict(engine="coq-layer-m", tech="Coq proof (maximum principle, self-adjointness => reciprocity and charge balance, symmetrisability of the assembled cable system, traced-formula identities) + exact evaluation of the identities on the implementation",
+   text="Full for the model: for every sorted tree, all positive parameters and every dt > 0, Coq proves that the backward-Euler step of a passive unstimulated cell keeps every voltage (branch points included) between the extremes of previous voltages and reversal potentials, that uniform stays uniform, and that the assembled system is symmetrisable (weights cm*r*l per compartment, one constant per branch point), from which reciprocity and charge balance are proved for arbitrary tree systems; the traced conductance formulas are proved reciprocal / proportional and the stimulus conversion area-exact. The implementation's outputs (3 backends, dt up to 1e9) are checked against the four identities in exact rational arithmetic.",
+   note=M_NOTE + " The specialisation of the generic charge-balance/reciprocity statements to sums over compartments is evaluated on the implementation, not restated as a separate theorem.", ref="DESIGN.md §5 C02"),
  "C06": dict(engine="coq-layer-m", tech="Coq proof about an executable model of nested_checkpoint_scan/integrate + direct predicate on the implementation",
    text="Partial: proved (axiom-free, any nesting depth, any lengths whose product covers the run) that nested_checkpoint_scan equals lax.scan and that integrate's recordings do not depend on checkpoint_lengths or on the zero padding. jit/vmap equivalence, bit-identical repetition and purity of integrate (deep snapshot of the module) are decided by the direct predicate on sampled models: they live in XLA/JAX and CPython object identity, which no Coq model of this code can exhibit.",
    note=M_NOTE + " Trusted: XLA/jit/vmap preserve the semantics of a pure traced function; jax.checkpoint is the identity.", ref="DESIGN.md §5 C06"),
